@@ -24,6 +24,7 @@ import (
 
 	"github.com/containerd/nri/pkg/adaptation"
 	"github.com/containerd/nri/pkg/api"
+	"github.com/containerd/nri/pkg/stub"
 
 	"nriverif/ev"
 )
@@ -278,6 +279,137 @@ func short(s string) string {
 	return fmt.Sprintf("%q", s)
 }
 
+// extPlugin is an external plugin: an in-process stub connected to nri's socket. Every
+// handler appends one line to the shared event log (same O_APPEND file the probes use, one
+// write per line), so launched and external plugins share one global invocation order.
+type extPlugin struct {
+	key   string
+	logf  *os.File
+	syncC chan struct{}
+	stub  stub.Stub
+}
+
+func (e *extPlugin) line(evn, tag string) {
+	b, _ := json.Marshal(Line{P: e.key, Pid: os.Getpid(), Ev: evn, Tag: tag, T: time.Now().UnixNano()})
+	e.logf.Write(append(b, '\n'))
+}
+
+func (e *extPlugin) Configure(context.Context, string, string, string) (api.EventMask, error) {
+	return 0, nil
+}
+func (e *extPlugin) Synchronize(context.Context, []*api.PodSandbox, []*api.Container) ([]*api.ContainerUpdate, error) {
+	select {
+	case e.syncC <- struct{}{}:
+	default:
+	}
+	return nil, nil
+}
+func (e *extPlugin) RunPodSandbox(_ context.Context, p *api.PodSandbox) error {
+	e.line("RunPodSandbox", p.GetId())
+	return nil
+}
+func (e *extPlugin) UpdatePodSandbox(_ context.Context, p *api.PodSandbox, _, _ *api.LinuxResources) error {
+	e.line("UpdatePodSandbox", p.GetId())
+	return nil
+}
+func (e *extPlugin) PostUpdatePodSandbox(_ context.Context, p *api.PodSandbox) error {
+	e.line("PostUpdatePodSandbox", p.GetId())
+	return nil
+}
+func (e *extPlugin) StopPodSandbox(_ context.Context, p *api.PodSandbox) error {
+	e.line("StopPodSandbox", p.GetId())
+	return nil
+}
+func (e *extPlugin) RemovePodSandbox(_ context.Context, p *api.PodSandbox) error {
+	e.line("RemovePodSandbox", p.GetId())
+	return nil
+}
+func (e *extPlugin) CreateContainer(_ context.Context, _ *api.PodSandbox, c *api.Container) (*api.ContainerAdjustment, []*api.ContainerUpdate, error) {
+	e.line("CreateContainer", c.GetId())
+	return nil, nil, nil
+}
+func (e *extPlugin) PostCreateContainer(_ context.Context, _ *api.PodSandbox, c *api.Container) error {
+	e.line("PostCreateContainer", c.GetId())
+	return nil
+}
+func (e *extPlugin) StartContainer(_ context.Context, _ *api.PodSandbox, c *api.Container) error {
+	e.line("StartContainer", c.GetId())
+	return nil
+}
+func (e *extPlugin) PostStartContainer(_ context.Context, _ *api.PodSandbox, c *api.Container) error {
+	e.line("PostStartContainer", c.GetId())
+	return nil
+}
+func (e *extPlugin) UpdateContainer(_ context.Context, _ *api.PodSandbox, c *api.Container, _ *api.LinuxResources) ([]*api.ContainerUpdate, error) {
+	e.line("UpdateContainer", c.GetId())
+	return nil, nil
+}
+func (e *extPlugin) PostUpdateContainer(_ context.Context, _ *api.PodSandbox, c *api.Container) error {
+	e.line("PostUpdateContainer", c.GetId())
+	return nil
+}
+func (e *extPlugin) StopContainer(_ context.Context, _ *api.PodSandbox, c *api.Container) ([]*api.ContainerUpdate, error) {
+	e.line("StopContainer", c.GetId())
+	return nil, nil
+}
+func (e *extPlugin) RemoveContainer(_ context.Context, _ *api.PodSandbox, c *api.Container) error {
+	e.line("RemoveContainer", c.GetId())
+	return nil
+}
+
+// joinExt connects an external plugin and returns once nri has it on its plugin list.
+// No request is relayed to find that out (a relayed request would make nri drop closed
+// plugins itself): the stub's Start returns after Configure; the Synchronize handler runs
+// while nri holds its plugin-sync lock, which it releases only after it has appended the
+// plugin and re-sorted its list; BlockPluginSync (public API) then waits for that release.
+// slow: a harness-side wait expired.
+func joinExt(a *adaptation.Adaptation, x Ext, socket string, logf *os.File) (e *extPlugin, err error, slow bool) {
+	e = &extPlugin{key: x.Key(), logf: logf, syncC: make(chan struct{}, 1)}
+	e.stub, err = stub.New(e,
+		stub.WithPluginName(x.Name), stub.WithPluginIdx(x.Idx),
+		stub.WithSocketPath(socket), stub.WithOnClose(func() {}))
+	if err != nil {
+		return nil, err, false
+	}
+	startC := make(chan error, 1)
+	go func() { startC <- e.stub.Start(context.Background()) }()
+	select {
+	case err := <-startC:
+		if err != nil {
+			return nil, fmt.Errorf("stub start: %w", err), true
+		}
+	case <-time.After(syncBound):
+		go func() { <-startC; e.stub.Stop() }()
+		return nil, fmt.Errorf("stub start did not return within %v", syncBound), true
+	}
+	select {
+	case <-e.syncC:
+	case <-time.After(syncBound):
+		e.stub.Stop()
+		return nil, fmt.Errorf("not synchronized within %v", syncBound), true
+	}
+	a.BlockPluginSync().Unblock()
+	return e, nil, false
+}
+
+// waitLogLine polls the event log for a line of plugin p with event evn.
+func waitLogLine(root, p, evn string, bound time.Duration) bool {
+	t0 := time.Now()
+	for {
+		if ls, err := readLog(root); err == nil {
+			for _, l := range ls {
+				if l.P == p && l.Ev == evn {
+					return true
+				}
+			}
+		}
+		if time.Since(t0) > bound {
+			return false
+		}
+		time.Sleep(time.Millisecond)
+	}
+}
+
 // runOnce executes the case once on a fresh tree.
 func runOnce(c C18Case) verdict {
 	h := &history{}
@@ -447,8 +579,10 @@ func runOnce(c C18Case) verdict {
 		plugOf[pluginDirName+"/"+p.File()] = p
 	}
 
-	// processes nri gave up on during start-up must be gone when Start returns (the kill
-	// is synchronous in the code; the bound only allows for the kernel's teardown)
+	// "killed": not alive (gone, zombie, pid re-used) within the bound. "reaped": killed and
+	// waited for — the pid is gone or re-used, not a zombie. nri's stop() is Kill+Wait, so a
+	// plugin nri stopped or dropped is reaped; only a process that ended on its own before
+	// it registered is never waited for (NOTES.md) and may remain a zombie.
 	notDead := func(when string, r Report, p Plugin) verdict {
 		dead, st, took := waitDead(r.Pid, r.StartTime, deathBound)
 		h.note("%s: process %d of %s: dead=%v state=%s after %v", when, r.Pid, p.File(), dead, st, took.Round(time.Microsecond))
@@ -458,12 +592,29 @@ func runOnce(c C18Case) verdict {
 		}
 		return verdict{}
 	}
+	notReaped := func(when string, r Report, p Plugin) verdict {
+		gone, st, took := waitGone(r.Pid, r.StartTime, deathBound)
+		h.note("%s: process %d of %s: reaped=%v state=%s after %v", when, r.Pid, p.File(), gone, st, took.Round(time.Microsecond))
+		if !gone {
+			what := fmt.Sprintf("is still alive (state %s)", st)
+			if st == "Z" || st == "X" || st == "x" {
+				what = "is an unreaped zombie (nobody waited for it)"
+			}
+			return failTimed(h, "%s: process %d of plugin %s (%s) %s %v later — a registered plugin that nri stops or drops must be killed and reaped",
+				when, r.Pid, p.File(), p.Behav, what, took.Round(time.Millisecond))
+		}
+		return verdict{}
+	}
+	overloaded := func(format string, a ...any) verdict {
+		h.note("overloaded: "+format, a...)
+		return verdict{out: ev.Outcome{Overloaded: true, Classes: []string{"overloaded"}, History: h}}
+	}
 	if startErr == nil {
 		for _, p := range c.Plugins {
 			switch p.Behav {
 			case bSleep, bCfgFail, bSyncFail:
 				for _, r := range byFile[pluginDirName+"/"+p.File()] {
-					if v := notDead("after Start (plugin failed to register/configure/synchronize)", r, p); v.out.Fail != "" {
+					if v := notReaped("after Start (plugin failed to register/configure/synchronize)", r, p); v.out.Fail != "" {
 						return v
 					}
 				}
@@ -471,18 +622,89 @@ func runOnce(c C18Case) verdict {
 		}
 	}
 
-	// --- lifecycle requests ----------------------------------------------------------------
+	// --- external plugins and lifecycle requests ----------------------------------------------
+	extLog, err := os.OpenFile(filepath.Join(root, "events.log"), os.O_WRONLY|os.O_APPEND|os.O_CREATE, 0o644)
+	if err != nil {
+		return infra("%v", err)
+	}
+	defer extLog.Close()
+	exts := map[int]*extPlugin{}
+	defer func() {
+		for _, e := range exts {
+			e.stub.Stop()
+		}
+	}()
+	type pend struct {
+		p Plugin
+		r Report
+	}
+	var pending []pend // plugins that failed on their own after answering; nri drops them at its next step
+	justFailed := false
 	if startErr == nil {
-		for i, op := range c.Ops {
+		for i := 0; i <= len(c.Ops); i++ {
+			// slot i: leaves, then joins
+			for xi, x := range c.Exts {
+				if x.Leave == i && exts[xi] != nil {
+					exts[xi].stub.Stop()
+					h.note("slot %d: external plugin %s left", i, x.Key())
+				}
+			}
+			for xi, x := range c.Exts {
+				if x.Join != i {
+					continue
+				}
+				if justFailed {
+					time.Sleep(noticeGrace)
+					justFailed = false
+				}
+				e, err, slow := joinExt(a, x, filepath.Join(root, "nri.sock"), extLog)
+				if slow {
+					return overloaded("external plugin %s: %v", x.Key(), err)
+				}
+				if err != nil {
+					return infra("external plugin %s: %v", x.Key(), err)
+				}
+				exts[xi] = e
+				h.note("slot %d: external plugin %s registered and synchronized", i, x.Key())
+			}
+			justFailed = false
+			if i == len(c.Ops) {
+				break
+			}
+			op := c.Ops[i]
 			t1 := time.Now()
 			err := issue(a, op, tagOf(i))
 			h.note("%s %s returned %v after %v", op, tagOf(i), err, time.Since(t1).Round(time.Microsecond))
+			// a plugin that failed on its own earlier has been dropped by now at the latest
+			for _, pd := range pending {
+				if v := notReaped(fmt.Sprintf("after request %s (the first request after the plugin closed its connection following its event %d)", tagOf(i), pd.p.K), pd.r, pd.p); v.out.Fail != "" {
+					return v
+				}
+			}
+			pending = nil
 			for _, p := range c.Plugins {
-				if (p.Behav == bDie || p.Behav == bDieAfter || p.Behav == bHang) && p.K == i+1 {
-					for _, r := range byFile[pluginDirName+"/"+p.File()] {
-						if v := notDead(fmt.Sprintf("after request %s (the plugin's event %d)", tagOf(i), p.K), r, p); v.out.Fail != "" {
+				if !p.failsAtEvent() || p.K != i+1 {
+					continue
+				}
+				for _, r := range byFile[pluginDirName+"/"+p.File()] {
+					switch {
+					case !p.failsAfterAnswer():
+						if v := notReaped(fmt.Sprintf("after request %s (the plugin's event %d)", tagOf(i), p.K), r, p); v.out.Fail != "" {
 							return v
 						}
+					case p.Behav == bDieAfter:
+						// harness synchronisation only: the process ends on its own
+						if dead, st, took := waitDead(r.Pid, r.StartTime, syncBound); !dead {
+							return overloaded("probe %s did not exit on its own within %v (state %s)", p.File(), took, st)
+						}
+						pending = append(pending, pend{p, r})
+						justFailed = true
+					case p.Behav == bLinger:
+						if !waitLogLine(root, pluginDirName+"/"+p.File(), "ConnClosed", syncBound) {
+							return overloaded("probe %s did not report its closed connection", p.File())
+						}
+						pending = append(pending, pend{p, r})
+						justFailed = true
 					}
 				}
 			}
@@ -497,7 +719,8 @@ func runOnce(c C18Case) verdict {
 	var lenient []string
 	for _, r := range reports {
 		p, known := plugOf[r.File]
-		if known && p.Behav == bCloseFD {
+		switch {
+		case known && p.Behav == bCloseFD:
 			// The process closed its socket without registering and keeps running. nri
 			// skips it ("connection closed") and never had it on its list; the statement
 			// promises the kill for plugins nri stops or drops, and is silent on whether
@@ -507,11 +730,19 @@ func runOnce(c C18Case) verdict {
 			} else {
 				lenient = append(lenient, "closefd_process_killed")
 			}
-			continue
+		case known && p.Behav == bExit:
+			// ended on its own before registering: never waited for, a zombie is accepted
+			if v := notDead("after Stop", r, p); v.out.Fail != "" {
+				return v
+			}
+		default:
+			if v := notReaped("after Stop", r, p); v.out.Fail != "" {
+				return v
+			}
 		}
-		if v := notDead("after Stop", r, p); v.out.Fail != "" {
-			return v
-		}
+	}
+	for _, e := range exts {
+		e.stub.Stop()
 	}
 
 	lines, err := readLog(root)
@@ -654,6 +885,10 @@ func judge(c C18Case, h *history, startErr error, reports []Report, lines []Line
 	}
 
 	// -- split the log --------------------------------------------------------------------------
+	extKeys := map[string]bool{}
+	for _, x := range c.Exts {
+		extKeys[x.Key()] = true
+	}
 	cfgLines := map[string][]Line{}
 	var life []Line
 	for _, l := range lines {
@@ -663,7 +898,7 @@ func judge(c C18Case, h *history, startErr error, reports []Report, lines []Line
 		case lifecycle[l.Ev]:
 			life = append(life, l)
 		}
-		if _, ok := expectLaunch[l.P]; !ok {
+		if _, ok := expectLaunch[l.P]; !ok && !extKeys[l.P] {
 			return failNow(h, "event log has a line from %q, which should never have run", l.P)
 		}
 	}
@@ -696,30 +931,81 @@ func judge(c C18Case, h *history, startErr error, reports []Report, lines []Line
 		}
 	}
 
-	// -- invocation: every request reaches the still active plugins, once, in index order ------
-	active := map[string]Plugin{}
+	// -- invocation: every request reaches the active plugins — launched ones that started up
+	// and have not failed, external ones between their registration and their leaving —
+	// once each, in index order over all of them together
+	type part struct {
+		idx, label, behav string
+		k                 int
+		ext               bool
+	}
+	active := map[string]part{}
 	for key, p := range expectLaunch {
 		if p.startsUp() {
-			active[key] = p
+			active[key] = part{idx: p.Idx, label: p.File(), behav: p.Behav, k: p.K}
 		}
 	}
 	if len(active) > 0 {
 		cls(fmt.Sprintf("active_at_start:%d", len(active)))
 	}
-	idxSeen := map[string]int{}
-	for _, p := range active {
-		idxSeen[p.Idx]++
-	}
-	for _, n := range idxSeen {
-		if n > 1 {
-			cls("equal_index_active")
-			break
+	activeKeys := func() []string {
+		ks := make([]string, 0, len(active))
+		for k := range active {
+			ks = append(ks, k)
 		}
+		sort.Strings(ks)
+		return ks
 	}
 	// the log must be grouped by request in issue order
 	pos := 0
 	dropsAtEvent, survivors := 0, 0
+	equalIdx, equalIdxMixed, mixedRequests := false, false, 0
+	selfFailedAt := -1 // slot directly after a launched plugin's own failure (dieafter/lingerafter)
 	for i, op := range c.Ops {
+		if startErr == nil {
+			for _, x := range c.Exts {
+				if x.Leave == i {
+					delete(active, x.Key())
+					cls("ext:left_before_stop")
+				}
+			}
+			for _, x := range c.Exts {
+				if x.Join == i {
+					active[x.Key()] = part{idx: x.Idx, label: "external " + x.Idx + "-" + x.Name, behav: "external", ext: true}
+					cls("ext:joined")
+					if i == 0 {
+						cls("ext:joined_before_first_request")
+					}
+					if selfFailedAt == i {
+						cls("ext:joined_right_after_launched_plugin_failed")
+					}
+				}
+			}
+		}
+		nExt, nLaunched := 0, 0
+		byIdx := map[string][2]int{}
+		for _, pt := range active {
+			v := byIdx[pt.idx]
+			if pt.ext {
+				nExt++
+				v[1]++
+			} else {
+				nLaunched++
+				v[0]++
+			}
+			byIdx[pt.idx] = v
+		}
+		for _, v := range byIdx {
+			if v[0]+v[1] > 1 {
+				equalIdx = true
+			}
+			if v[0] > 0 && v[1] > 0 {
+				equalIdxMixed = true
+			}
+		}
+		if nExt > 0 && nLaunched > 0 {
+			mixedRequests++
+		}
 		tag := tagOf(i)
 		var got []Line
 		for pos < len(life) && life[pos].Tag == tag {
@@ -734,42 +1020,71 @@ func judge(c C18Case, h *history, startErr error, reports []Report, lines []Line
 				if q, was := expectLaunch[l.P]; was {
 					return failNow(h, "request %s %s: plugin %s (%s) was invoked although it is not (any longer) an active plugin", tag, op, q.File(), q.Behav)
 				}
+				if extKeys[l.P] {
+					return failNow(h, "request %s %s: external plugin %s was invoked outside its registration", tag, op, l.P)
+				}
 				return failNow(h, "request %s %s: invocation of unknown plugin %q", tag, op, l.P)
 			}
 			if l.Ev != op {
-				return failNow(h, "request %s: plugin %s saw event %s, the request was %s", tag, p.File(), l.Ev, op)
+				return failNow(h, "request %s: plugin %s saw event %s, the request was %s", tag, p.label, l.Ev, op)
 			}
 			seen[l.P]++
 			if seen[l.P] > 1 {
-				return failNow(h, "request %s %s: plugin %s was invoked twice", tag, op, p.File())
+				return failNow(h, "request %s %s: plugin %s was invoked twice", tag, op, p.label)
 			}
-			if p.Idx < prevIdx {
+			if p.idx < prevIdx {
 				return failNow(h, "request %s %s: plugin %s (index %s) was invoked after a plugin with index %s — not in index order: %s",
-					tag, op, p.File(), p.Idx, prevIdx, orderOf(got))
+					tag, op, p.label, p.idx, prevIdx, orderOf(got))
 			}
-			prevIdx = p.Idx
+			prevIdx = p.idx
 		}
-		for _, key := range sortedKeysP(active) {
+		for _, key := range activeKeys() {
 			if seen[key] == 0 {
 				p := active[key]
-				return failTimed(h, "request %s %s: active plugin %s (%s) was not invoked (invoked: %s)%s", tag, op, p.File(), p.Behav, orderOf(got), startNote)
+				return failTimed(h, "request %s %s: active plugin %s (%s) was not invoked (invoked: %s)%s", tag, op, p.label, p.behav, orderOf(got), startNote)
 			}
 		}
 		dropped := false
 		for key, p := range active {
-			if (p.Behav == bDie || p.Behav == bDieAfter || p.Behav == bHang) && p.K == i+1 {
+			if !p.ext && p.k == i+1 && (p.behav == bDie || p.behav == bDieAfter || p.behav == bLinger || p.behav == bHang) {
 				delete(active, key)
 				dropped = true
 				dropsAtEvent++
+				if p.behav == bDieAfter || p.behav == bLinger {
+					selfFailedAt = i + 1
+				}
 			}
 		}
 		if dropped && i+1 < len(c.Ops) && len(active) > 0 {
 			survivors++
 		}
 	}
+	if startErr == nil {
+		for _, x := range c.Exts {
+			if x.Join == len(c.Ops) {
+				cls("ext:joined")
+				cls("ext:joined_after_last_request")
+				if selfFailedAt == len(c.Ops) {
+					cls("ext:joined_right_after_launched_plugin_failed")
+				}
+			}
+			if x.Leave == len(c.Ops) {
+				cls("ext:left_before_stop")
+			}
+		}
+	}
 	if pos < len(life) {
 		l := life[pos]
 		return failNow(h, "event log: invocation %s %s of plugin %q out of request order (position %d of %d)", l.Ev, l.Tag, l.P, pos, len(life))
+	}
+	if equalIdx {
+		cls("equal_index_active")
+	}
+	if equalIdxMixed {
+		cls("equal_index_launched_and_external")
+	}
+	if mixedRequests > 0 {
+		cls("requests_with_launched_and_external")
 	}
 
 	// -- classes / non-triviality -----------------------------------------------------------------
@@ -939,12 +1254,12 @@ func TestExh_C18(t *testing.T) {
 	defer r.Flush()
 	ops := []string{"RunPodSandbox", "CreateContainer", "StartContainer", "StopContainer"}
 	var cases []C18Case
-	for i, b := range []string{bOK, bExit, bSleep, bCloseFD, bCfgFail, bSyncFail, bDie, bDieAfter, bHang, bGarbage} {
+	for i, b := range []string{bOK, bExit, bSleep, bCloseFD, bCfgFail, bSyncFail, bDie, bDieAfter, bLinger, bHang, bGarbage} {
 		x := Plugin{Idx: "20", Stem: "x", Behav: b, Mode: 0o755}
 		switch b {
 		case bExit:
 			x.K = 1
-		case bDie, bDieAfter, bHang:
+		case bDie, bDieAfter, bLinger, bHang:
 			x.K = 2
 		case bGarbage:
 			x.Garbage = []string{"empty", "text", "elf"}[i%3]
@@ -976,6 +1291,25 @@ func TestExh_C18(t *testing.T) {
 		c.NoConfDir = len(c.Confs) == 0
 		cases = append(cases, c)
 	}
+	// a launched plugin fails on its own after its k-th event, then an external plugin
+	// registers before the next request (k=2) or before Stop (k=4); and an external plugin
+	// sharing an index with a launched one that comes and goes
+	for _, b := range []string{bDieAfter, bLinger} {
+		for _, k := range []int{2, 4} {
+			cases = append(cases, C18Case{
+				Plugins: []Plugin{{Idx: "10", Stem: "a", Behav: bOK, Mode: 0o755}, {Idx: "20", Stem: "x", Behav: b, K: k, Mode: 0o755}, {Idx: "30", Stem: "c", Behav: bOK, Mode: 0o755}},
+				Ops:     ops,
+				Listen:  true,
+				Exts:    []Ext{{Idx: "15", Name: "e0", Join: k, Leave: len(ops) + 1}},
+			})
+		}
+	}
+	cases = append(cases, C18Case{
+		Plugins: []Plugin{{Idx: "10", Stem: "a", Behav: bOK, Mode: 0o755}, {Idx: "30", Stem: "c", Behav: bOK, Mode: 0o755}},
+		Ops:     ops,
+		Listen:  true,
+		Exts:    []Ext{{Idx: "10", Name: "e0", Join: 0, Leave: 2}, {Idx: "20", Name: "e1", Join: 1, Leave: len(ops) + 1}, {Idx: "05", Name: "e2", Join: 3, Leave: 4}},
+	})
 	for _, c := range cases {
 		raw := ev.Snapshot(c)
 		r.Journal(raw)
